@@ -297,9 +297,19 @@ def run(ctx):
     meta = []        # python-side description per case
     stray_fail = []
     boundary_classes = {}
+    shared_params = {}
+    n_shared_calls = 0
     for (nx, ny) in sizes:
         for exact in ((True,) if quick and (nx + ny) % 2 else (True, False)):
-            x0, y0, dx, dy = gen_grid_params(rng, exact)
+            # the result must not depend on earlier calls: grids of transposed shape (same number of cells) share their
+            # voxel size, so anything the function remembered from one call would be handed to the other
+            if exact and (ny, nx) in shared_params:
+                x0, y0, dx, dy = shared_params[(ny, nx)]
+                n_shared_calls += 1
+            else:
+                x0, y0, dx, dy = gen_grid_params(rng, exact)
+                if exact:
+                    shared_params[(nx, ny)] = (x0, y0, dx, dy)
             perm = gen_perm(rng, nx, ny)
             verts, m12, m21 = make_grid(nx, ny, x0, y0, dx, dy, perm)
             ops = admt_utils.generate_derivative_operators(verts, m12, m21)
